@@ -462,6 +462,7 @@ func c02Stress(seed int64, tier string) *c02Result {
 		}
 		c02PausedRender(col, n)
 		c02SharedData(col, n, 12)
+		c02FsChurn(col, n/3+1)
 	}
 	for k := range col.seq {
 		res.Distinct = append(res.Distinct, k)
